@@ -2358,6 +2358,8 @@ sexp sexp_write_one (sexp ctx, sexp obj, sexp out, sexp_sint_t bound) {
       c = (sexp_lsymbol_length(obj) == 0 ||
            (sexp_lsymbol_length(obj) == 1 && str[0] == '.') ||
            sexp_isdigit((unsigned char)str[0]) ||
+           (sexp_lsymbol_length(obj) > 1 && str[0] == '.'
+            && sexp_isdigit((unsigned char)str[1])) ||
            (sexp_lsymbol_length(obj) > 1 &&
             ((str[0] == '+' || str[0] == '-')
              && (sexp_isdigit((unsigned char)str[1]) ||
